@@ -273,6 +273,12 @@ def configurations(thorough):
                     for maxfail in (0, 1):
                         cfg = {'fam': name, 'tests': tests, 'jobs': jobs, 'repeat': repeat, 'maxfail': maxfail}
                         out.append((cfg, bounds[repeat]))
+                        if name in ('A', 'B') and repeat == 1 and maxfail == 0 and jobs <= 2:
+                            # --timeout-multiplier with a fractional part: the limit is timeout x multiplier, not a whole number
+                            for tm in (0.95, 2.45):
+                                c2 = dict(cfg)
+                                c2['tm'] = tm
+                                out.append((c2, bounds[repeat]))
     out.sort(key=lambda cb: (len(cb[0]['tests']) * cb[0]['repeat'], cb[0]['jobs']))
     if os.environ.get('C12_STRIDE'):      # debugging aid only (cost estimation)
         out = out[::int(os.environ['C12_STRIDE'])]
@@ -318,7 +324,7 @@ def parse_totals(out):
 
 def cfg_index(cfg):
     names = [tname(i, t) for i, t in enumerate(cfg['tests'])]
-    meta = {tname(i, t): (t, TIMEOUTS[i]) for i, t in enumerate(cfg['tests'])}
+    meta = {tname(i, t): (t, TIMEOUTS[i] * (cfg.get('tm') or 1)) for i, t in enumerate(cfg['tests'])}
     return names, meta
 
 
@@ -427,7 +433,7 @@ def judge(cfg, log, rc, out, jrecs, err):
             if r['sigs'] and r['sigs'][0][0] - r['start'] >= limit and maxfail > 0 and nbad0 >= maxfail:
                 # classifier of one specific defect: the run was being killed for its timeout when --maxfail cancelled everything
                 V.append(('C12:lost-run:timeout-kill-cancelled-by-maxfail',
-                          '%s passed its limit (%ds) and was sent SIGTERM at t=%s; before it was reaped --maxfail cancelled the run: the test is in '
+                          '%s passed its limit (%ss) and was sent SIGTERM at t=%s; before it was reaped --maxfail cancelled the run: the test is in '
                           'neither testlog.json nor the totals%s' % (key, limit, r['sigs'][0][0], ' and its process was never reaped' if key in left_running else '')))
                 if key in left_running:
                     left_running.remove(key)
@@ -439,14 +445,17 @@ def judge(cfg, log, rc, out, jrecs, err):
         if r['sigs'] and r['sigs'][0][0] - r['start'] >= limit:
             exp = {'TIMEOUT'}
             S['timeouts'] += 1
-            what = 'limit %ds passed at t=%s, then signalled' % (limit, r['sigs'][0][0])
+            what = 'limit %ss passed at t=%s, then signalled' % (limit, r['sigs'][0][0])
         elif r['sigs']:
             exp = None          # unspecified corner: classification of a run the harness itself interrupted
             interrupted.append(key)
             what = 'signalled by the harness before its limit'
+            if obs == 'TIMEOUT':
+                V.append(('C12:class:timeout-before-limit', '%s is reported TIMEOUT but was signalled at t=%s, %s after its start; its limit is %s'
+                          % (key, r['sigs'][0][0], r['sigs'][0][0] - r['start'], limit)))
         else:
             if r['end'] is not None and r['end'] - r['start'] > limit:
-                V.append(('C12:class:timeout-not-enforced', '%s ran from %s to %s, limit %d, never signalled' % (key, r['start'], r['end'], limit)))
+                V.append(('C12:class:timeout-not-enforced', '%s ran from %s to %s, limit %s, never signalled' % (key, r['start'], r['end'], limit)))
             exp, loose = allowed_results(t[1], t[2], r['rc'], t[4])
             what = 'exit status %s' % r['rc']
         if loose:
@@ -518,7 +527,8 @@ def minimal_environ():
 
 def cfg_argv(cfg, wd):
     names, _ = cfg_index(cfg)
-    return ['-C', wd, '--num-processes', str(cfg['jobs']), '--repeat', str(cfg['repeat']), '--maxfail', str(cfg['maxfail'])] + names
+    tm = ['-t', str(cfg['tm'])] if cfg.get('tm') else []
+    return ['-C', wd, '--num-processes', str(cfg['jobs']), '--repeat', str(cfg['repeat']), '--maxfail', str(cfg['maxfail'])] + tm + names
 
 
 def behaviour_of(cfg):
